@@ -98,7 +98,7 @@ func genCase(t *rapid.T, withInvalid bool) *Case {
 			{K: "update", Opts: &Options{MEs: []ME{{Name: 0, Eps: from}, {Name: 1, Eps: []int{other}}}, Default: c.Init.Default}}, {K: "rpc", Ctx: 2}}
 		return c
 	}
-	kinds := []string{"update", "update", "down", "down", "up", "up", "rpc"}
+	kinds := []string{"update", "update", "down", "down", "up", "up", "rpc", "extclose"}
 	if withInvalid {
 		kinds = append(kinds, "bad", "bad", "bad")
 	} else {
@@ -117,6 +117,8 @@ func genCase(t *rapid.T, withInvalid bool) *Case {
 				Strm: rapid.Bool().Draw(t, "retry")}
 		case "rpc":
 			return Op{K: k, Ctx: rapid.IntRange(0, 4).Draw(t, "ctx"), Strm: rapid.Bool().Draw(t, "stream")}
+		case "extclose":
+			return Op{K: k, E: rapid.IntRange(0, 5).Draw(t, "xe")}
 		default:
 			return Op{K: k, E: rapid.IntRange(0, 3).Draw(t, "e")}
 		}
